@@ -107,6 +107,7 @@ PROPS = {
         "trusted": ["T1", "T4", "T8", "T11", "T12", "T13", "T13s", "TLOG", "TARC", "RW", "DERIVE"] + ["T9", "T10"],
         "assumptions": [
             "SCOPE: only the sequential rely/guarantee obligations are machine-checked: every key-directory entry published by put / merge names a complete, flushed record (Index at every guard release, C04.*.valid_location at every read/copy), LogReader's slice is in bounds after the conditional re-map whenever the FILE is long enough (C04.reader.slice_in_bounds), append flushes before returning (C04.append.flushed_before_ack), Handle::get returns its reader to the pool on every path and the `expect` on push cannot fail (C04.get.pool_preserved)",
+            "bounded companion on the real code (thorough tier / witness, never counted as proved): writer, reader and merging threads on one store with 200-byte files; single writer per key, every read checked against real-time bounds (at least the last write completed before it started, at most the last write started when it ended); ~5 million operations per thorough run, schedules chosen by the OS",
             "NOT covered: actual interleavings, DashMap shard locking, memory ordering, the real ArrayQueue, termination of the spin loop in Handle::get (exec_allows_no_decreases_clause), linearizability itself. Argued only: writers are serialised by the Mutex; a reader's linearisation point is its keydir.get; published records are immutable (C14)",
         ],
     },
